@@ -1037,6 +1037,18 @@ package cputensor
 //@ define inRange(J, A, lo, hi) := forall(j, lo, hi, 0 <= J[j] && J[j] < A[j])
 //@ define sameOn(A, B, lo, hi) := forall(j, lo, hi, A[j] == B[j])
 
+// COUNT as a statement about tensors (used by metrics.Accuracy): the sum of a published tensor whose elements are all 0 or 1
+// is the number of its one-elements, an integer between 0 and the number of elements
+//@ define leaves01(t) := forallJ(J, imp(inb(t, J), el(t, J) == 0.0 || el(t, J) == 1.0))
+//@ define tA(t) := arrOf(t.dims)
+//@ define tOnes(t) := ones(t.data, arrOf(t.dims), 0, len(t.dims))
+//@ lemma binLeavesOfTensor: forallT(t, imp(t != nil && published(t) && leaves01(t), 0 <= len(t.dims) && posFrom(tA(t), 0, len(t.dims)) && WF(t.data, tA(t), 0, len(t.dims)) && LeavesBin(t.data, tA(t), 0, len(t.dims)))) @uses dimsLink, dataLink
+//@ lemma binOfTensor: forallT(t, imp(t != nil && published(t) && leaves01(t), 0 <= len(t.dims) && Bin(t.data, tA(t), 0, len(t.dims)) && posFrom(tA(t), 0, len(t.dims)))) @uses binLeavesOfTensor, binFromLeaves
+//@ lemma sumOnesOfTensor: forallT(t, imp(t != nil && published(t) && leaves01(t) && isPlusFn(plusFn()), FoldOnesAt(0, len(t.dims)) && tsum(t) == real(tOnes(t)))) @uses binOfTensor, foldOnes, tsumDef
+//@ lemma onesRangeOfTensor: forallT(t, imp(t != nil && published(t) && leaves01(t), OnesBoundAt(0, len(t.dims)) && 0 <= tOnes(t) && tOnes(t) <= cnt(tA(t), 0, len(t.dims)))) @uses binOfTensor, onesBound
+//@ lemma sumBinary: forallT(t, imp(t != nil && published(t) && leaves01(t) && isPlusFn(plusFn()), tsum(t) == real(tOnes(t)) && 0 <= tOnes(t) && tOnes(t) <= cnt(tA(t), 0, len(t.dims)))) @uses sumOnesOfTensor, onesRangeOfTensor
+
+
 // Map1 is pointwise on the leaves (induction over the nesting depth hi - lo)
 //@ define mapElBody(lo, hi) := forallF(f, forallD(a, forallD(r, forallJ(A, forallJ(J, imp(0 <= lo && WF(a, A, lo, hi) && WF(r, A, lo, hi) && Map1(f, a, r, A, lo, hi) && inRange(J, A, lo, hi), leafv(r, J, lo) == app1(f, leafv(a, J, lo))))))))
 //@ induct mapEl: mapElBody
